@@ -3,6 +3,7 @@ package value
 import (
 	"bytes"
 	"testing"
+	"unicode/utf8"
 
 	"github.com/uhn/ggql/pkg/ggql"
 
@@ -13,6 +14,8 @@ import (
 // (name keys, non-integral floats, name symbols).
 func inDomain(v interface{}) bool {
 	switch t := v.(type) {
+	case string:
+		return utf8.ValidString(t)
 	case float64:
 		return t != float64(int64(t)) || t > 1e18 || t < -1e18
 	case ggql.Symbol:
